@@ -401,6 +401,14 @@ def _lean_obligations(chk, props_rel, tie, extra_targets):
     cj = canon_json()
     for area, names in tie.items():
         rel = "BdModel/Tie/%s.lean" % area
+        # every check that ties an area also ties the "rest of file" skeletons of that area (declarations that are
+        # not anchored one by one): a change anywhere in the files the property lives in is noticed
+        try:
+            allt = re.findall(r"^theorem tie_(\w+) ", open(os.path.join(LEAN, rel)).read(), re.M)
+        except OSError:
+            allt = []
+        names = list(names if names is not None else allt)
+        names += [t for t in allt if t.startswith("h_rest_") and t not in names]
         rc, out = lean_file(rel)
         failed = {theorem_at_line(os.path.join(LEAN, rel), int(l)) for f, l, _ in ERR_RE.findall(out)}
         tax = parse_axioms(out)
